@@ -704,6 +704,7 @@ var exprContexts = []string{
 	"switch {\ncase condq(%s):\n}", "_ = func() any { return %s }", "_ = map[string]any{\"k\": %s}", "for range rq(%s) {\n}",
 	"var _ = %s", "_ = [...]any{1: %s}", "_ = otherq.meth(%s).fld", "sinkq(func() { _ = %s })", "_, _ = 1, %s", "chq <- (%s)",
 	"_ = *%s", "_ = (*%s).fldq", "_ = -%s", "_ = &%s", "_ = %s.fldq", "_ = %s[0]", "_ = <-%s",
+	"for %s = range rq(1) {\n}", "for _, %s = range rq(1) {\n}", "%s = 1", "%s, _ = 1, 2", "%s++", "%s += 1",
 	"_ = !condq(%s)", "switch x := anyq(%s).(type) {\ncase int:\n\t_ = x\n}", "LabQ:\n\tfor {\n\t\tsinkq(%s)\n\t\tbreak LabQ\n\t}",
 }
 
